@@ -42,6 +42,7 @@ def run(ctx):
     check_offsets(ctx)
     check_resume(ctx)
     check_bounds(ctx)
+    check_stale_index(ctx)
     check_accessors(ctx)
     from .. import rules_base as RB
     ctx.rule('R3.B', 'base model: token-type containment, token flags, Token.match, imt and the navigation helpers behave as the rules assume (source interpreted on a finite matrix)', floor=1)
@@ -459,6 +460,91 @@ def check_accessors(ctx):
             else:
                 ctx.ob('R3.6', f'accessor:{m.short}', f'{m.mod.relpath}:{m.node.lineno}', f'{m.short} is read-only (transitively, {len(reach)} functions)', True)
     ctx.need(n >= 40, f'only {n} accessor methods found in sql.py')
+
+
+def check_stale_index(ctx):
+    """A pass that walks a snapshot of the list (`for idx, token in enumerate(list(tlist))`) translates snapshot positions into current
+    ones with an offset (`tidx = idx - offset`) and raises the offset after each grouping.  A position computed before the offset was
+    raised is stale in the rest of that iteration: kept (`start = tidx`) or handed on, it points behind the token it was meant for."""
+    repo = ctx.repo
+    ctx.rule('R3.4c', 'snapshot loops: a position computed as idx - offset is not used after the offset was raised in the same iteration', floor=2)
+    n = 0
+    for f in repo.funcs.values():
+        if f.mod.name != 'sqlparse.engine.grouping' or isinstance(f.node, ast.Lambda):
+            continue
+        for loop in [x for x in own_nodes(f.node, include_lambdas=False) if isinstance(x, ast.For)]:
+            it = loop.iter
+            if not (isinstance(it, ast.Call) and is_name(it.func, 'enumerate') and it.args and isinstance(loop.target, ast.Tuple) and loop.target.elts
+                    and isinstance(loop.target.elts[0], ast.Name)):
+                continue
+            idxvar = loop.target.elts[0].id
+            offsets = {x.target.id for x in ast.walk(loop) if isinstance(x, ast.AugAssign) and isinstance(x.target, ast.Name)}
+            # position variables: X = idx - offset
+            posdefs = [x for x in ast.walk(loop) if isinstance(x, ast.Assign) and len(x.targets) == 1 and isinstance(x.targets[0], ast.Name)
+                       and isinstance(x.value, ast.BinOp) and isinstance(x.value.op, ast.Sub) and is_name(x.value.left, idxvar)
+                       and isinstance(x.value.right, ast.Name) and x.value.right.id in offsets]
+            if not posdefs:
+                continue
+            n += 1
+            offvars = {x.value.right.id for x in posdefs}
+            found = []
+
+            def loads(node, names):
+                return [y for y in ast.walk(node) if isinstance(y, ast.Name) and isinstance(y.ctx, ast.Load) and y.id in names]
+
+            def walk(stmts, pos, stale):
+                """pos: names holding a current position; stale: those computed before the last raise of the offset -> state after the block
+                (None when every path leaves the iteration)"""
+                pos, stale = set(pos), set(stale)
+                for st in stmts:
+                    if isinstance(st, (ast.Continue, ast.Break, ast.Return, ast.Raise)):
+                        if isinstance(st, ast.Return) and st.value is not None:
+                            found.extend((y, st) for y in loads(st.value, stale))
+                        return None
+                    if isinstance(st, ast.If):
+                        found.extend((y, st) for y in loads(st.test, stale))
+                        a = walk(st.body, pos, stale)
+                        b = walk(st.orelse, pos, stale)
+                        if a is None and b is None:
+                            return None
+                        pos = (a[0] if a else set()) | (b[0] if b else set())
+                        stale = (a[1] if a else set()) | (b[1] if b else set())
+                        continue
+                    if isinstance(st, (ast.For, ast.While, ast.Try, ast.With)):
+                        found.extend((y, st) for y in loads(st, stale))
+                        continue
+                    if isinstance(st, ast.AugAssign) and isinstance(st.target, ast.Name) and st.target.id in offvars:
+                        found.extend((y, st) for y in loads(st.value, stale))
+                        stale |= pos
+                        continue
+                    if isinstance(st, ast.AugAssign) and isinstance(st.target, ast.Name) and st.target.id in stale:
+                        stale.discard(st.target.id)        # corrected in place
+                        continue
+                    val = getattr(st, 'value', None)
+                    if val is not None:
+                        found.extend((y, st) for y in loads(val, stale))
+                    if isinstance(st, ast.Assign) and len(st.targets) == 1 and isinstance(st.targets[0], ast.Name):
+                        t_ = st.targets[0].id
+                        v_ = st.value
+                        fresh = isinstance(v_, ast.BinOp) and isinstance(v_.op, ast.Sub) and is_name(v_.left, idxvar) and isinstance(v_.right, ast.Name) and v_.right.id in offvars
+                        alias = isinstance(v_, ast.Name) and v_.id in pos
+                        stale.discard(t_)
+                        pos.discard(t_)
+                        if fresh or (alias and v_.id not in stale):
+                            pos.add(t_)
+                        elif alias:
+                            pos.add(t_)
+                            stale.add(t_)
+                return pos, stale
+            walk(loop.body, set(), set())
+            loc = f'{f.mod.relpath}:{loop.lineno}'
+            if not found:
+                ctx.ob('R3.4c', f'{f.name}:loop', loc, f'{f.name}: no position of the snapshot loop is used after `{"/".join(sorted(offvars))}` was raised in the same iteration', True)
+            for y, st in found[:3]:
+                ctx.ob('R3.4c', f'{f.name}:{y.id}:{src(st)[:40]}', f'{f.mod.relpath}:{st.lineno}', f'{f.name}: `{y.id}` is current where `{src(st)[:60]}` uses it', False,
+                       f'`{y.id}` was computed as {idxvar} - offset before the offset was raised in this iteration (tokens in front of the current one were grouped): '
+                       f'it now points behind the token it was computed for; a group built from it starts too late (empty group, missing keyword, IndexError)')
+    ctx.need(n >= 2, f'only {n} snapshot loops with an offset found in engine/grouping.py')
 
 
 def check_statement_construction(ctx):
